@@ -11,6 +11,24 @@ let rec rty_ s : M.rty =
   | List [Atom "t"; List l] -> M.RTuple (List.map rty_ l)
   | _ -> failwith "rty expected"
 
+(* syn types beyond the documented language: (p ((name) | (name (arg ...)) ...)) with arg = (ty t) | (lt);
+   (r t) (t (..)) (arr t) (slice t) (other) *)
+let rec xty_ s : M.xty =
+  match s with
+  | List [Atom "p"; List segs] ->
+      M.XPath (List.map (fun sg -> match sg with
+        | List [Atom n] -> (explode n, None)
+        | List [Atom n; List args] ->
+            (explode n, Some (List.map (fun a -> match a with
+               | List [Atom "ty"; t] -> Some (xty_ t) | _ -> None) args))
+        | _ -> failwith "segment expected") segs)
+  | List [Atom "r"; t] -> M.XRef (xty_ t)
+  | List [Atom "t"; List l] -> M.XTuple (List.map xty_ l)
+  | List [Atom "arr"; t] -> M.XArray (xty_ t)
+  | List [Atom "slice"; t] -> M.XSlice (xty_ t)
+  | List [Atom "other"] -> M.XOther
+  | _ -> failwith "xty expected"
+
 let mapping_ s : M.mapping = list_ (pair_ str_ str_) s
 
 let rec canon (t : M.tstruct) : string =
@@ -90,3 +108,9 @@ let () =
              List [Atom (canon ts); of_str p; of_str (M.c05_prefix p); of_str (M.c05_zvisit m ts); of_str (M.c05_zbuild m ts)]
          | None -> List [Atom "<none>"])
     | _ -> failwith "c05-raw: bad case")
+;;
+let () =
+  (* the three type_to_string variants: xty -> (command struct channel) *)
+  Registry.register "printers" (fun s ->
+    let t = xty_ s in
+    List [of_str (M.c05_pr_cmd t); of_str (M.c05_pr_struct t); of_str (M.c05_pr_chan t)])
